@@ -277,7 +277,7 @@ def rule_stop(ctx, M):
     b = ent["drive"]
     bi = M.info(b)
     be = break_edges(bi, M)
-    ctx.require(len(be) >= 2, "drive: ConsumerState::Break edges (found %d, expected the progress result and every send result)" % len(be))
+    ctx.require(len(be) >= 1, "drive: ConsumerState::Break edges (found %d, expected the progress result and every send result)" % len(be))
     # every awaited send result and the progress result is examined for Break
     untested = []
     wrapped = {sp.block for sp in costream.send_points(bi, M) if sp.wrapper}
